@@ -343,6 +343,20 @@ class ChunkIO(RuleBasedStateMachine):
         for (si, cc) in sorted(self.model):
             if self.readable(si):
                 self._read(si, self.scale(si), cc, "read_all")
+        # read everything first, compare afterwards: an array returned for one
+        # chunk must not change when other chunks are read later
+        got = []
+        for (si, cc) in sorted(self.model):
+            if self.readable(si):
+                try:
+                    got.append((si, cc, self.pio.read_chunk(
+                        self.scale(si)["key"], cc)))
+                except Exception as exc:
+                    self.fail("read_all: read_chunk(%s, %s) failed: %s %s" % (
+                        self.scale(si)["key"], cc, type(exc).__name__, exc))
+        for si, cc, arr in got:
+            self.compare(self.scale(si), cc, arr, self.model[(si, cc)],
+                         "read_all (compared after reading all chunks)")
 
     @rule(s=st.integers(0, 2), p=st.integers(0, 10 ** 6),
           m=st.sampled_from(MUTATIONS), axis=st.integers(0, 2),
